@@ -78,7 +78,9 @@ def run_case(case):
     ctx_mode = case["idx"] % 3 == 1
     # ... and every third tree contains calls that hand the child a list which the caller changes in place afterwards
     mut_mode = case["idx"] % 3 == 2
-    tree = trees.gen_tree(rng, tid, aimed_batch=case["idx"] % 2 == 0, with_context=ctx_mode, with_mut=mut_mode)
+    # ... and the remaining third contains sub-calls (single and batched) whose result the body ignores
+    ign_mode = case["idx"] % 3 == 0
+    tree = trees.gen_tree(rng, tid, aimed_batch=case["idx"] % 2 == 0, with_context=ctx_mode, with_mut=mut_mode, with_ignore=ign_mode)
     root_ctx = rng.choice([{"tenant": 1}, {"asof": "2020-01-02", "k": [1, 2]}, {"tenant": "x", "zone": None}]) if ctx_mode else None
     tfuncs.TREES[tid] = tree
     for nd in tree["nodes"]:
